@@ -102,21 +102,29 @@ check("C06",
       "Lean 4 refinement proof (cursor simulates the format's assignment) + strict reference parser + differential correspondence + layout exploration with an independent writer",
       "DESIGN.md §9.3 C06")
 check("C07",
-      "Theorem (Lean, every member list): the FilesInfo section py7zr's writer emits - any number of members, names over "
-      "all Unicode scalars (BMP and astral), any pattern of empty-stream entries, times and attributes defined or "
-      "undefined in any pattern, any file offset (kDummy padding) - is accepted by the strict reader (a parser written "
-      "from the format document that checks every count, property size, bit-vector length, padding and external flag) "
-      "and decodes to exactly the names, flags, times and attribute words written (strict_reader_accepts_filesinfo, "
-      "composed from per-property steps: EmptyStream, Dummy, Names, MTime, Attributes, END); the same for the PackInfo section (strict_reader_accepts_packinfo); NUMBERs <= 9 bytes decodable "
-      "by the spec decoder (C17); counter-example theorem for the pinned property-size computation (F1, repaired). "
-      "Header.write is tied byte-for-byte to the writer model (hdr.w incl. partial vectors and zero-stream folders). "
-      "Every archive built through py7zr in the exploration (histories of 1..3 sessions, every documented chain, +/-7zAES, "
-      "raw/encoded/encrypted header) is parsed by the strict reader running as an executable and decoded with codec "
-      "libraries + an independent 7zAES key derivation; recovered members are compared with what was written. Partial: "
-      "the UnpackInfo/SubStreamsInfo sections and the signature header are covered by the executable strict "
-      "reader and hdr.w, not by a composition theorem.",
-      "Lean 4 proof (strict reader reads the written FilesInfo section, all inputs) + byte-for-byte correspondence of Header.write + independent reader exploration",
-      "DESIGN.md §9.3 C07")
+      "Theorems (Lean, unbounded). (1) session_archive_conforms: for EVERY list of write calls of a create session (names "
+      "over all Unicode scalars, directories and data members in any order, every member's bytes in any read blocks), "
+      "EVERY chain of codec stages (arbitrary state/compress/flush functions) and any well-formed coder records, the "
+      "archive file the session model assembles - signature header, packed area, raw header - is accepted by the strict "
+      "ARCHIVE reader (a parser written from the format document: magic, start-header CRC, next header located by "
+      "offset/size ending exactly at end of file, header CRC, every count / property size / bit-vector length / END / "
+      "count-agreement check of the header database), the packed sizes tile the data area exactly, and the format's "
+      "assignment returns exactly the members written, in order, each with the length and CRC-32 of its bytes at the "
+      "offset where its predecessors end. (2) compressor_accounting: for any stages and any blocks, the sizes/CRCs the "
+      "compressor reports are those of the bytes, packsize/digest those of what was written, and the folder's last "
+      "unpack size is the total. (3) strict_reader_accepts_header and per-section theorems (PackInfo, UnpackInfo with any "
+      "legal coder graph incl. complex coders, SubStreamsInfo with counts/sizes elided or present and any digest pattern, "
+      "FilesInfo with any definedness pattern and padding). CE theorem for the pinned property-size computation (F1, "
+      "repaired). Tie to the code: ws.arch (whole create sessions of the real SevenZipFile with scripted codec stages: the "
+      "session model predicts the archive file BYTE FOR BYTE, every documented chain +/-password, directories, block sizes "
+      "1..64), cmp.run (SevenZipCompressor block loop/counters/unpacksizes vs the compressor model), hdr.w (Header.write "
+      "byte-for-byte incl. partial vectors and zero-stream folders). Exploration: histories of 1..3 sessions (every "
+      "documented chain, sessions mixing encrypted and plain, raw/encoded/encrypted header) parsed by the strict reader "
+      "as an executable and decoded with codec libraries + an independent 7zAES key derivation. Partial: append sessions "
+      "and encoded/encrypted headers are covered by hdr.w + the executable strict reader, not by the session theorem; the "
+      "three 2^64 size hypotheses are the format's limits.",
+      "Lean 4 proof (whole create session accepted by a strict archive reader and decoded to the members written; compressor accounting; all inputs) + byte-for-byte correspondence of real sessions + independent reader exploration",
+      "DESIGN.md §9.3 C07, §9.9")
 check("C08",
       "Theorems (Lean): for EVERY base archive (files, folders incl. stream-less ones, sizes, digests) and EVERY "
       "appended material, the sub-stream cursor gives the members that were already there exactly the folder, offset, "
@@ -133,8 +141,12 @@ check("C01",
       "Theorems (Lean, unbounded): the 7zAES residue buffers feed the cipher the stream exactly once, in order, in whole "
       "blocks, zero-padded, for every chunking (writer) / every chunking into >=1-block pieces (reader); chunked decoding "
       "with the carry-over buffer loses/duplicates nothing for every decoder and request sequence; cutting a folder's "
-      "output by the stored sizes returns the members; names round-trip through the UTF-16 table. Tied by the aes "
-      "(recording cipher) and dec (scripted decoders) streams. The end-to-end claim is explored: member lists x every "
+      "output by the stored sizes returns the members; names round-trip through the UTF-16 table; container_roundtrip: "
+      "the members an independent reader finds in a create session's archive (C07.session_archive_conforms) carry the "
+      "written names in call order and (offset,size) pairs that cut the concatenation of the members' bytes back into "
+      "exactly each member's bytes, for every member list / chain / block size (the codec chain's invertibility is the one "
+      "hypothesis); stored_sizes_crcs. Tied by the aes (recording cipher), dec (scripted decoders) and cmp.run "
+      "(scripted compressor stages) streams. The end-to-end claim is explored: member lists x every "
       "supported documented chain (+/-AES) x header mode x path/BytesIO/buffered/multi-volume(64..) x I/O block "
       "{17,64,4096,default} x extraction chunk {1,7,4096,default}, each in a child process. Partial: codec correctness, "
       "multivolumefile and OS are parameters (F17, a tail defect of the bcj library found by this exploration, is worked around in /repo).",
@@ -213,9 +225,14 @@ check("C03",
       "mutated location under the destination for every initial file system and every step sequence (arbitrary names, "
       "kinds, link targets, any length), completed or aborted; kernel-evaluated counter-example for the pinned lexical "
       "check (chain a->'.', a/b->'..', b/evil; F8, repaired); get_sanitized_output_path results are lexically under the "
-      "canonical destination. Tied by the path streams. Decided on the real file system by exploration: hostile archives "
+      "canonical destination, and for extraction into the working directory (no path) the result is a relative path that "
+      "joined to the working directory is exactly the checked path (sanitized_inside_cwd; CE for the pinned branch that "
+      "returned '/abs' for './/abs', repaired in 6d3f35c). Tied by the path streams (path.out, and path.outcwd evaluated "
+      "with the process standing in the directory). Decided on the real file system by exploration: hostile archives "
       "from the independent writer (names/kinds/targets of the property's alphabet, all single entries, known chains, "
-      "random 2-8 entry archives, three destination spellings, path/stream, empty/populated destination) extracted under "
+      "random 2-8 entry archives, names with marker/separator prefixes in front of absolute paths, entries flagged as links "
+      "without a stream, groups of entries whose names are spellings of one output location incl. the destination root, "
+      "three destination spellings, path/stream, empty/populated destination) extracted under "
       "an audit hook with every mutated path resolved against the jail, plus before/after snapshots. Partial: the FS "
       "model's tie to the kernel is by those runs, not by proof.",
       "Lean 4 invariant proof over a symlink file-system model + kernel-checked counter-example + audit-hook exploration of hostile archives",
